@@ -330,10 +330,15 @@ fn scenario(variant: &str, n: usize) -> Result<(), String> {
             if m.total_gc_count() != k || drops() != 0 {
                 return Err(format!("{k} values held by the root: after a full cycle total_gc_count reads {} and {} were destructed", m.total_gc_count(), drops()));
             }
-            arena.mutate_root(|_, root| {
-                root.watch = root.keep.iter().map(|&g| Gc::downgrade(g)).collect();
-                root.keep.clear();
-            });
+            // the root lets go of its values and only watches them: written in place, or replaced
+            if (n / 3) % 2 == 0 {
+                arena.mutate_root(|_, root| {
+                    root.watch = root.keep.iter().map(|&g| Gc::downgrade(g)).collect();
+                    root.keep.clear();
+                });
+            } else {
+                arena = arena.map_root::<Rootable![Watch<'_>]>(|_, old| Watch { watch: old.keep.iter().map(|&g| Gc::downgrade(g)).collect(), keep: Vec::new() });
+            }
             for cycle in 0..4 {
                 if arena.collection_phase() != CollectionPhase::Sleeping {
                     return Err(format!("cycle {cycle}: the collector is not asleep after a finished cycle"));
